@@ -14,7 +14,7 @@ use jrpc_harness::subs_env::*;
 fn main() {
 	let a = args();
 	let mut out = Out::new();
-	let pf = Profile { check_c06: false, check_c04: true, w_accept: 9, w_send: 8, w_ret: 3, w_wstep: 7, reuse_ids: 0, w_burst: 4, tail: false };
+	let pf = Profile { check_c06: false, check_c04: true, w_accept: 9, w_send: 8, w_ret: 3, w_wstep: 7, typed_ids: 2, reuse_ids: 0, w_burst: 4, tail: false };
 	if let Some(r) = &a.replay {
 		for case in split_cases(read_case_lines(r)) {
 			run_fixed(&mut out, &case, &pf);
